@@ -80,10 +80,46 @@ func (ts *Timers) withMap(x interface{}) error {
 }
 
 // State creates a machine state that Timers.withMap can use.
+//
+// The state gets a copy of the map of pending timers (and not the
+// map itself, which changes as timers come and go while the state
+// might be serialized by somebody else).
 func (ts *Timers) State() *core.State {
 	return &core.State{
-		Bs: match.NewBindings().Extend("timers", ts.Map),
+		Bs: match.NewBindings().Extend("timers", ts.copyMap()),
 	}
+}
+
+// copyMap makes a copy of the map of pending timers.
+func (ts *Timers) copyMap() map[string]*TimerEntry {
+	acc := make(map[string]*TimerEntry, len(ts.Map))
+	for id, te := range ts.Map {
+		acc[id] = te
+	}
+	return acc
+}
+
+// fired does the bookkeeping for a timer whose time has come and
+// returns the timer's message.
+//
+// The crew's loop calls this method when it gets to the timer (see
+// Crew.init), so all changes to the pending timers (and to the
+// crew's record of what has changed) are made by the loop, not by
+// the timers' goroutines.
+//
+// If the timer was canceled in the meantime (or a new timer was made
+// with its id), the result is nil: The timer doesn't fire.
+func (ts *Timers) fired(te *TimerEntry) interface{} {
+	ts.Lock()
+	defer ts.Unlock()
+
+	if current, have := ts.Map[te.Id]; !have || current != te {
+		return nil
+	}
+	delete(ts.Map, te.Id)
+	ts.changed()
+
+	return te.Msg
 }
 
 // Start starts all known timers.
@@ -143,13 +179,8 @@ func (te *TimerEntry) run(ctx context.Context) error {
 	select {
 	case <-t.C:
 		te.timers.c.Logf("Firing timer '%s'", te.Id)
+		// The bookkeeping happens in Timers.fired().
 		te.timers.Emitter(ctx, te)
-		te.timers.Lock()
-		delete(te.timers.Map, te.Id)
-		te.timers.Unlock()
-		te.timers.c.Lock()
-		te.timers.changed()
-		te.timers.c.Unlock()
 	case <-te.Ctl:
 		te.timers.c.Logf("Canceling timer '%s'", te.Id)
 	case <-ctx.Done():
@@ -158,7 +189,12 @@ func (te *TimerEntry) run(ctx context.Context) error {
 }
 
 func (ts *Timers) changed() {
-	ts.c.change(TimersMachine).State = ts.State()
+	st := ts.State()
+	if m, have := ts.c.Machines[TimersMachine]; have && m.State != nil && m.State.Bs != nil {
+		// Keep the timers machine's own state current.
+		m.State.Bs["timers"] = st.Bs["timers"]
+	}
+	ts.c.change(TimersMachine).State = st
 }
 
 func (ts *Timers) cancel(ctx context.Context, id string) error {
